@@ -1,12 +1,22 @@
 import PepperProofs.ConstraintGenFiles
 import PepperProofs.ConstraintGenTotalT
+import PepperProofs.ConstraintGenSeps
 /-!
 # C05 — the constraint files honour the documented spuriousSSM input contract
 
 Model: `PepperModel/ConstraintGen.lean` — `getConstraints` (= `Convert.get_constraints`), `ssmFiles` (the `eq_map` /
 `wc_map` / `st_map` / `print_list` lines of `design()`), `readTriple` (= `load_input_files` of `spuriousSSM.c` for
-`template= wc= eq=`), and `PepperModel/Ssm.lean` — `Contract` (the documented contract), `constrain`,
-`testConsistency`.
+`template= wc= eq=`), `SsmContract` / `sepsOk` / `segsOf` (the contract with its separator clause, against the
+strands the layout puts on the line), and `PepperModel/Ssm.lean` — `Contract` (the documented contract),
+`constrain`, `testConsistency`.
+
+Status.  Proved at full strength: `files_satisfy_contract` (+ `_strand`, `_struct`).  The separator clause ("at
+least one blank between strands and two between complexes") is now derived in Lean, in two forms: over positions
+(`Seps`: `SepsStrand` / `SepsStruct` of `PepperProofs/ConstraintGenSeps.lean`, from the closed-form layouts
+`C04.layout_exact_strand` / `C04.layout_exact_struct`) and as the executable check `sepsOk` of `SsmContract` on the
+maximal blank runs of the text (`sepsOk_of_seps`).  The numeric input is `gap_constants_ok`, an obligation over the
+generated gap constants (re-measured on the working tree on every run).  The earlier `_partial` theorems (everything
+but the separator clause) are kept; the full ones are assembled from them.
 -/
 namespace Pepper.C05
 open Pepper Pepper.Pil Pepper.ConstraintGen
@@ -23,8 +33,8 @@ open Pepper Pepper.Pil Pepper.ConstraintGen
 
     Not covered by this theorem (named `_partial` for that reason): the separator clause of `SsmContract` ("at least
     one blank between strands and two between complexes", `sepsOk` against the layout's strand list) — it is a
-    statement about where the layout puts the strands (C04's `layout_exact`), checked by the harness on every
-    sampled document. -/
+    statement about where the layout puts the strands (C04's `layout_exact`); see `files_satisfy_contract` below
+    for the full statement. -/
 theorem files_satisfy_contract_partial {mode : Layout} {stmts : List Stmt} {spec : Spec}
     (hload : Pil.load Generated.nupackTable stmts {} = .ok spec)
     {s : Seeds} {c : Cons} (hs : seeds mode spec = .ok s) (hb : build s = .ok c)
@@ -62,6 +72,107 @@ theorem files_satisfy_contract_struct_partial {stmts : List Stmt} {spec : Spec}
       ∀ pick : Nat → Nat, Ssm.testConsistency t (Ssm.constrain t (startOf t pick)) = true := by
   obtain ⟨s, c, hs, hb⟩ := seeding_total_struct (load_wf hload) hp
   exact files_satisfy_contract_partial hload hs hb ha
+
+/-! ### the separator clause and the full statement -/
+
+/-- **Obligation over the generated gap constants.**  The numbers of blanks the layouts write (measured on the
+    working tree by `extract_tables.py`: after every strand in the strand layout; after every strand of a structure
+    and between structures in the structure layout) meet the contract: at least two between complexes, at least one
+    between strands.  If the source lowers a gap below the contract this stops being provable. -/
+theorem gap_constants_ok :
+    2 ≤ Generated.strandGap ∧ 1 ≤ Generated.structGapStrands ∧ 2 ≤ Generated.structGapStructs := by decide
+
+/-- **The separator clause on the template array** `get_constraints` returns (`a.2.2`; `None` = blank), either
+    layout.  `Seps` says: (`nuc`) every nucleotide of every strand sits at its closed-form position — strand
+    layout: `startSC k + x`, the earlier strands each with `strandGap` blanks; structure layout: `posT q m y`, the
+    earlier structures, the earlier strands of the structure each with `structGapStrands` blank(s) — and is not blank
+    there; (`cover`) nothing else on the line is non-blank; (`strands`, structure layout) between two nucleotides of
+    different strands of one structure there is a blank position; (`complexes`) between two nucleotides of different
+    complexes — different strands in the strand layout, different structures in the structure layout — there are
+    two consecutive blank positions.  Strands of length 0 have no nucleotides and are not constrained. -/
+theorem template_array_separated {mode : Layout} {stmts : List Stmt} {spec : Spec}
+    (hload : Pil.load Generated.nupackTable stmts {} = .ok spec)
+    {s : Seeds} {c : Cons} (hs : seeds mode spec = .ok s) (hb : build s = .ok c)
+    {a : Arrays} (ha : getConstraints mode spec = .ok a) :
+    Seps mode (nbArr a.2.2) (bArr a.2.2) spec := by
+  cases mode with
+  | strand => exact seps_strand_arr hload hs hb ha gap_constants_ok.1
+  | struct => exact seps_struct_arr hload hs hb ha gap_constants_ok.2.1 gap_constants_ok.2.2
+
+/-- **The separator clause is the executable one.**  For any text: the clause over positions (`Seps`, read with
+    "character other than `' '`" / "the character `' '`") implies the check `sepsOk` of `SsmContract` against the
+    strands the layout puts on the line (`segsOf`): the maximal non-blank runs of the text are, in order, exactly
+    the non-empty strands with their lengths, and the maximal run of blanks before a run has length at least 1,
+    and at least 2 where the run starts a new complex. -/
+theorem seps_executable {mode : Layout} {st : List Char} {spec : Spec}
+    (h : Seps mode (nbText st) (bText st) spec) : sepsOk st (segsOf mode spec) = true := sepsOk_of_seps h
+
+/-- **C05, full statement.**  For every document the reader accepts: whenever `get_constraints` returns arrays
+    (after a successful seeding), the three texts `design()` writes are read back by the model of
+    `load_input_files` to a triple `t` of three arrays of one length which satisfies the whole documented contract:
+    `Ssm.Contract` (see `files_satisfy_contract_partial`), accepted by the C program's own `test_consistency` for
+    every outcome of its random draws, **and the separator clause**: in the template text `t.st` the C reader
+    holds, the strands' nucleotides sit at the closed-form positions of the layout, nothing else is non-blank,
+    there is at least one `' '` between two nucleotides of different strands and at least two consecutive `' '`
+    between two nucleotides of different complexes (`Seps`, see `template_array_separated`); equivalently on the
+    maximal blank runs: `SsmContract t (segsOf mode spec)`, i.e. `Ssm.contractB t` and `sepsOk t.st` against the
+    layout's own strand list.  Both layouts. -/
+theorem files_satisfy_contract {mode : Layout} {stmts : List Stmt} {spec : Spec}
+    (hload : Pil.load Generated.nupackTable stmts {} = .ok spec)
+    {s : Seeds} {c : Cons} (hs : seeds mode spec = .ok s) (hb : build s = .ok c)
+    {a : Arrays} (ha : getConstraints mode spec = .ok a) :
+    ∃ t, (readTriple (ssmFiles a) = some t ∧ t.eq.length = t.N ∧ t.wc.length = t.N ∧
+      Ssm.contractB t = true ∧
+      ∀ pick : Nat → Nat, Ssm.testConsistency t (Ssm.constrain t (startOf t pick)) = true) ∧
+      Seps mode (nbText t.st) (bText t.st) spec ∧
+      SsmContract t (segsOf mode spec) = true := by
+  obtain ⟨t, ht, h1, h2, h3, h4⟩ := files_satisfy_contract_partial hload hs hb ha
+  -- the triple read back is the arrays themselves
+  obtain ⟨wf, h | h | ⟨a', h⟩⟩ := getConstraintsT_spec pil_lawful (load_specCodes hload) hs hb
+  · exact absurd (h.1.symm.trans ha) (by simp)
+  · exact absurd (h.1.symm.trans ha) (by simp)
+  · have e : a' = a := by
+      have := h.1.symm.trans ha
+      simpa using this
+    have F := arrFacts_of_exact wf (e ▸ h.2.2)
+    have et : t = tripleOf a := by
+      have := ht.symm.trans (readTriple_ssmFiles F)
+      simpa using this
+    have hseps : Seps mode (nbText t.st) (bText t.st) spec := by
+      rw [et]
+      cases mode with
+      | strand => exact seps_strand_text hload hs hb ha F gap_constants_ok.1
+      | struct => exact seps_struct_text hload hs hb ha F gap_constants_ok.2.1 gap_constants_ok.2.2
+    refine ⟨t, ⟨ht, h1, h2, h3, h4⟩, hseps, ?_⟩
+    unfold SsmContract
+    rw [h3, sepsOk_of_seps hseps]
+    rfl
+
+/-- The same for the strand layout (the default), with the seeding hypotheses discharged: every strand is a
+    complex of its own, two blanks between any two of them. -/
+theorem files_satisfy_contract_strand {stmts : List Stmt} {spec : Spec}
+    (hload : Pil.load Generated.nupackTable stmts {} = .ok spec)
+    {a : Arrays} (ha : getConstraints .strand spec = .ok a) :
+    ∃ t, (readTriple (ssmFiles a) = some t ∧ t.eq.length = t.N ∧ t.wc.length = t.N ∧
+      Ssm.contractB t = true ∧
+      ∀ pick : Nat → Nat, Ssm.testConsistency t (Ssm.constrain t (startOf t pick)) = true) ∧
+      SepsStrand (nbText t.st) (bText t.st) spec ∧
+      SsmContract t (segsOf .strand spec) = true := by
+  obtain ⟨s, c, hs, hb⟩ := seeding_total_strand (load_wf hload)
+  exact files_satisfy_contract hload hs hb ha
+
+/-- The same for the structure layout when every non-empty strand occurs in some structure: one complex per
+    structure, one blank between its strands, two between structures. -/
+theorem files_satisfy_contract_struct {stmts : List Stmt} {spec : Spec}
+    (hload : Pil.load Generated.nupackTable stmts {} = .ok spec) (hp : Placed spec)
+    {a : Arrays} (ha : getConstraints .struct spec = .ok a) :
+    ∃ t, (readTriple (ssmFiles a) = some t ∧ t.eq.length = t.N ∧ t.wc.length = t.N ∧
+      Ssm.contractB t = true ∧
+      ∀ pick : Nat → Nat, Ssm.testConsistency t (Ssm.constrain t (startOf t pick)) = true) ∧
+      SepsStruct (nbText t.st) (bText t.st) spec ∧
+      SsmContract t (segsOf .struct spec) = true := by
+  obtain ⟨s, c, hs, hb⟩ := seeding_total_struct (load_wf hload) hp
+  exact files_satisfy_contract hload hs hb ha
 
 /-- The documented contract implies acceptance by `test_consistency` on the constrained start sequence, for any
     triple (not only the generated ones) and any random draws. -/
@@ -124,12 +235,47 @@ example : (match run .strand duplex with
       | none => false)
     | .error _ => false) = true := by decide +kernel
 
+/-- two strands, two structures: the duplex `D = A + B` and the single strand `E = A` once more -/
+def twoTwo : List Stmt := [
+  .seq "a" "NNS".toList, .strand "A" false ["a"], .strand "B" false ["a*"],
+  .struct "D" (some "1nt") ["A", "B"] "(((+)))".toList, .struct "E" (some "1nt") ["A"] "...".toList ]
+
+/-- the hypotheses of the full theorems hold on it (seeding in both layouts; every strand placed), and the strands
+    the layouts put on the line are: each strand a complex / the structures `[A, B]` and `[A]` -/
+example : seeded .strand twoTwo = true ∧ seeded .struct twoTwo = true ∧
+    (match Pil.load Generated.nupackTable twoTwo {} with
+      | .ok s => segsOf .strand s == [[3], [3]] && segsOf .struct s == [[3, 3], [3]] &&
+          s.strands.all (fun o => s.structs.any (fun so => so.strands.contains o.name))
+      | .error _ => false) = true := by decide +kernel
+
+/-- strand layout: two blanks between the two strands; structure layout: one blank between the strands of `D`, two
+    between `D` and `E`; both texts satisfy the whole contract, separator clause included -/
+example : (match run .strand twoTwo, run .struct twoTwo with
+    | .ok a, .ok b => (match readTriple (ssmFiles a), readTriple (ssmFiles b) with
+      | some t, some u => t.st == "NNS  SNN".toList && SsmContract t [[3], [3]] &&
+          u.st == "NNS SNN  NNS".toList && SsmContract u [[3, 3], [3]]
+      | _, _ => false)
+    | _, _ => false) = true := by decide +kernel
+
+/-- the clause over positions on the structure-layout text above, spelled out for the last nucleotide of `D`
+    (position 6) and the first of `E` (position 9): the two blanks 7, 8 lie between; with a single blank there
+    (`"NNS SNN NNS"`, positions 6 and 8) it fails -/
+example : BlanksBetween (bText "NNS SNN  NNS".toList) 2 6 9 ∧ ¬ BlanksBetween (bText "NNS SNN NNS".toList) 2 6 8 := by
+  refine ⟨⟨7, by decide, by decide, ?_⟩, ?_⟩
+  · intro j h1 h2
+    have : j = 7 ∨ j = 8 := by omega
+    rcases this with rfl | rfl <;> (unfold bText; decide)
+  · rintro ⟨e, h1, h2, _⟩
+    omega
+
 /-- the contract is not trivially true: `wc` pointing at a non-representative, or `eq` not lowest, is rejected -/
 example : Ssm.contractB ⟨"NN".toList, [1, 1], [2, -1]⟩ = false ∧ Ssm.contractB ⟨"NN".toList, [2, 2], [-1, -1]⟩ = false := by
   decide +kernel
 
-/-- the separator clause is not trivially true either: one blank between two complexes is too few -/
+/-- the separator clause is not trivially true either: one blank between two complexes is too few, and so is a
+    missing blank between two strands -/
 example : sepsOk "NN N".toList [[2], [1]] = false ∧ sepsOk "NN  N".toList [[2], [1]] = true ∧
-    sepsOk "NN N".toList [[2, 1]] = true := by decide +kernel
+    sepsOk "NN N".toList [[2, 1]] = true ∧ sepsOk "NNN".toList [[2, 1]] = false ∧
+    sepsOk "NNS SNN NNS".toList [[3, 3], [3]] = false := by decide +kernel
 
 end Pepper.C05
